@@ -36,6 +36,8 @@ int main(void) {
 	{ unsigned short lw16[3] = u"abc"; unsigned lw32[2] = U"xy"; __typeof__(L'a') lwl[4] = L"wxyz"; unsigned char l8[2] = u8"pq"; struct { unsigned short w[2]; unsigned char guard; } lst = { u"mn", 7 };
 	  unsigned lw32z[3] = U"xy"; unsigned short lw16e[1] = u"";
 	  dump(lw16, sizeof lw16); dump(lw32, sizeof lw32); dump(lwl, sizeof lwl); dump(l8, sizeof l8); dump(lst.w, sizeof lst.w); P(lst.guard); dump(lw32z, sizeof lw32z); dump(lw16e, sizeof lw16e); }
+	{ typedef const char S_t[]; typedef int T_t[]; static S_t s1 = "ab", s2 = "abcd"; S_t s3 = "a", s4 = "abcdef"; T_t t1 = { 1, 2 }, t2 = { 1, 2, 3 }; static T_t t3 = { [4] = 1 }, t4 = { 9 };
+	  dump(s1, sizeof s1); dump(s2, sizeof s2); dump(s3, sizeof s3); dump(s4, sizeof s4); dump(t1, sizeof t1); dump(t2, sizeof t2); dump(t3, sizeof t3); dump(t4, sizeof t4); dump((T_t){ 1, 2, 3 }, sizeof (T_t){ 1, 2, 3 }); dump((T_t){ 1 }, sizeof (T_t){ 1 }); }
 	{ static struct { unsigned w[10]; int k; } sw1 = { .w = U"xyz", .w[8] = 5, .k = 1 }; static struct { unsigned short h[9]; } sw2 = { .h = u"ab", .h[7] = 9, .h[3] = 1 }; static struct { char c[12]; } sw3 = { .c = "hi", .c[11] = 'z' };
 	  dump(&sw1, sizeof sw1); dump(&sw2, sizeof sw2); dump(&sw3, sizeof sw3); }
 	{ struct AN { int a; struct { int b, c; }; int d; int e; }; static struct AN n1 = { .b = 1, 2, 3 }; static struct AN n2 = { 5, .c = 1, 3 }; struct AN n3 = { .b = 1, 2, 3 }; struct AN n4 = { 5, .c = 1, 3 };
